@@ -18,6 +18,8 @@ import (
 // C05 — Exchange.GetRangeByHeight yields a verified contiguous run from from+1 or fails.
 
 type C05Scenario struct {
+	// Metrics: the Exchange is built WithMetrics (a configuration that must not change any result)
+	Metrics   bool          `json:"metrics,omitempty"`
 	From      uint64        `json:"from"`
 	ToRel     int           `json:"to_rel"` // to = from + to_rel
 	Chunk     uint64        `json:"chunk"`  // MaxHeadersPerRangeRequest
@@ -57,6 +59,7 @@ func genC05(t *rapid.T) C05Scenario {
 		}
 		s.Peers = append(s.Peers, script)
 	}
+	s.Metrics = rapid.IntRange(0, 3).Draw(t, "metrics") == 0
 	return s
 }
 
@@ -108,6 +111,8 @@ func (e *exchangeEnv) close() {
 }
 
 func runC05(t *testing.T, s C05Scenario) (res Result) {
+	exchangeMetrics = s.Metrics
+	defer func() { exchangeMetrics = false }()
 	// a header type with a crashing code path on attacker-chosen content: "no peer response can crash the client"
 	vh.ArmPanics(true)
 	defer vh.ArmPanics(false)
